@@ -441,3 +441,35 @@ def c14(tier: str) -> int:
 
 
 _EVENT_MAKERS.update({'construct': conv.ev_construct, 'created': conv.ev_created})
+
+
+NAMES_CFGS = {'quick': 'MC_Grammar_names_q.cfg', 'thorough': 'MC_Grammar_names_t.cfg'}
+C15_CLAUSES = ({'must-accept', 'must-reject', 'image', 'foreign-exception', 'serialised-form', 'not-interchange', 'serialise-failed',
+                'reparse-failed', 'reparse-differs', 'children-keys', 'missing-fields', 'extra-fields', 'duplicate-node',
+                'length-bounds', 'node-kind', 'build-fails-documented'})
+
+
+def _accepted_only(T, v):
+    # round trips only matter for values that can convert: mappings and sequences
+    return v['k'] in ('map', 'seq')
+
+
+def _every(n):
+    c = [0]
+
+    def f(T, v):
+        c[0] += 1
+        return c[0] % n == 0
+    return f
+
+
+@check('C15')
+def c15(tier: str) -> int:
+    return _multi_grammar('C15', tier, [
+        (NAMES_CFGS, C15_CLAUSES, conv.ev_from_data, {}),
+        (NAMES_CFGS, C15_CLAUSES, conv.ev_roundtrip, {'filter': _accepted_only}),
+        (NAMES_CFGS, C15_CLAUSES, conv.ev_tree, {'filter': _every(3)}),
+        (CLS_CFGS, C15_CLAUSES, conv.ev_from_data, {}),
+        (CLS_CFGS, C15_CLAUSES, conv.ev_roundtrip, {}),
+        (CLS_CFGS, C15_CLAUSES, conv.ev_tree, {}),
+    ])
